@@ -182,7 +182,7 @@ fn gen_file(rng: &mut Rng, stem: &str, pansn_samples: Option<Vec<String>>, is_re
 }
 
 pub fn run(args: &Args, rep: &mut Report) {
-    let n = args.get_u64("n", if args.tier_thorough { 4_000 } else { 144 });
+    let n = args.get_u64("n", if args.tier_thorough { 2_500 } else { 144 });
     let scratch = args.get("scratch").unwrap_or("/tmp").to_string();
     let Some(ragc) = args.get("ragc").map(|s| s.to_string()) else {
         rep.inconclusive("no ragc binary given".into());
